@@ -22,12 +22,16 @@ Recs == TLCGet(7)
 ReadVerdict(rec) ==
   LET c == rec.content
       f(acc, i) ==
-        IF acc.cursor = -1 THEN acc
+        IF acc.cursor < 0 THEN acc
         ELSE LET call == rec.calls[i]
                  want == CASE call.op = "read" -> RRes(c, acc.cursor, call.n)
                            [] call.op \in {"readall", "tostring"} -> ARes(c, acc.cursor)
                            [] call.op = "line" -> LRes(c, acc.cursor)
-             IN IF call.res.k = "bytes" /\ call.res.v = want THEN [cursor |-> acc.cursor + Len(want), at |-> i]
+                 text == call.op \in {"line", "tostring"}
+             IN \* text that is not text: only an error object does not misreport the content; where the handle
+                \* stands afterwards is not settled (-2: accepted, the calls after it are not judged)
+                IF text /\ ~WellFormedUtf8(want) THEN [cursor |-> IF call.res.k = "err" THEN -2 ELSE -1, at |-> i]
+                ELSE IF call.res.k = "bytes" /\ call.res.v = want THEN [cursor |-> acc.cursor + Len(want), at |-> i]
                 ELSE [cursor |-> -1, at |-> i]
       r == FoldLeft(f, [cursor |-> 0, at |-> 0], [i \in 1..Len(rec.calls) |-> i])
   IN [id |-> rec.id, v |-> IF r.cursor = -1 THEN "bad" ELSE "ok", at |-> r.at]
